@@ -3,7 +3,7 @@ CONSTANTS Comp = "multi"
   NP = 3
   Links <- L_Tri
   NoFlood <- NF_Tri
-  Cuts <- C_Tri1
+  Cuts <- C_Tri12
   Hosts <- H2
   InitAt <- At2_2
   MovePorts <- Mv_none
@@ -12,6 +12,7 @@ CONSTANTS Comp = "multi"
   NBuf = 2
   Gaps <- G_none
   Strict = FALSE
+  Busy = TRUE
   D = 5
 INIT Init
 NEXT Next
